@@ -25,7 +25,7 @@ REQUIRED = {
     "update_sets_exact_checks": 20, "reset_checks": 5, "is_weight_checks": 10,
     "priority_fn_checks": 10,
 }
-TIMEOUT = {"quick": 900, "thorough": 3000}
+TIMEOUT = {"quick": 900, "thorough": 7000}
 ASSUMPTIONS = [
     "the shadow model is advanced from the public API calls only; the buffer's "
     "priority array is read solely for the after-operation comparison",
@@ -38,7 +38,7 @@ EDGE_U = [2.0**-53, 1.0 - 2.0**-53]
 
 def gen_cases(tier, seed):
     rng = np.random.default_rng(seed + 8008)
-    n = 600 if tier == "quick" else 12000
+    n = 600 if tier == "quick" else 40000
     cases = []
     for i in range(n):
         cases.append(dict(
